@@ -695,7 +695,7 @@ func runPhase(e *Env, ph *Phase) {
 // time do not oversubscribe the CPUs with child processes. It only delays
 // the start of a child; it never affects a verdict.
 func acquireSlot() func() {
-	n := runtime.NumCPU() + runtime.NumCPU()/4
+	n := 0 // disabled unless VERIF_SLOTS=<n> is set (polling flock is not a fair queue)
 	if v := os.Getenv("VERIF_SLOTS"); v != "" {
 		if k, err := strconv.Atoi(v); err == nil {
 			n = k
